@@ -125,6 +125,18 @@ MUTANTS = [
          old="  let atoms := if resetCR then atoms.map fun (k, a) => (k, { a with chg := none, rad := none }) else atoms",
          new="  let atoms := atoms.map fun (k, a) => (k, { a with chg := none, rad := none })",
          expect=["C08"], why="atom-block charge codes dropped even when no M  CHG / M  RAD line is present"),
+    dict(id="text-mode-drops-lone-cr", file="TucanModel/Molfile.lean",
+         old="  | '\\r' :: r => '\\n' :: universalNewlines r",
+         new="  | '\\r' :: r => universalNewlines r",
+         expect=["C07"], why="text-mode reading that swallows a lone carriage return (the lines of the file change)"),
+    dict(id="count-one-written", file="TucanModel/Serialize.lean",
+         old="def symCount (k : Str) (v : Nat) : Str := if v > 1 then k ++ natRepr v else k",
+         new="def symCount (k : Str) (v : Nat) : Str := if v > 0 then k ++ natRepr v else k",
+         expect=["C05"], why="a count of 1 written out (`C1H4`): not the canonical layout, and not the grammar"),
+    dict(id="attr-rad-before-mass", file="TucanModel/Serialize.lean",
+         old="    let av := (match n.attrs.mass with | some m => [\"mass=\".toList ++ intRepr m] | none => []) ++\n              (match n.attrs.rad with | some r => [\"rad=\".toList ++ intRepr r] | none => [])",
+         new="    let av := (match n.attrs.rad with | some r => [\"rad=\".toList ++ intRepr r] | none => []) ++\n              (match n.attrs.mass with | some m => [\"mass=\".toList ++ intRepr m] | none => [])",
+         expect=["C05"], why="`rad` written before `mass` inside a block: the layout theorem about the emitted string (Ast.Canonical.blockKeys) fixes the order"),
 ]
 
 
